@@ -581,6 +581,22 @@ func isFreshErrorDepth(v ssa.Value, depth int) bool {
 		if _, ok := x.X.(*ssa.Global); ok && x.Op == token.MUL {
 			return true
 		}
+		// `err = fmt.Errorf(...); return err`: a load straight after the store of a made error into the same cell
+		// (nothing in between that could write the cell)
+		if x.Op == token.MUL && depth < 3 {
+			b := x.Block()
+			for i := instrIndex(x) - 1; b != nil && i >= 0; i-- {
+				switch p := b.Instrs[i].(type) {
+				case *ssa.Store:
+					if p.Addr == x.X {
+						return isFreshErrorDepth(p.Val, depth+1)
+					}
+					return false
+				case ssa.CallInstruction:
+					return false
+				}
+			}
+		}
 	case *ssa.MakeInterface:
 		return true
 	}
